@@ -52,6 +52,7 @@ type genPlan struct {
 	Sel        int
 	Churn      int  // deselect/re-select cycles
 	Pipelined  bool // churn frames in one segment
+	Tie        int  // 0 none; else a targeted hold during the churn: role (supervisor/recv) and which atomic step
 	EndsNS     bool // a final lone Deselect.req: the generation then dies by T7
 	End        int
 	EndDelay   time.Duration
@@ -113,6 +114,9 @@ type gen struct {
 	settled     bool
 	openedAt    time.Duration
 	wedgedAt    time.Duration
+	// writerStalledAt: a sender was withheld by the scheduler (gstall) inside a write for at least the
+	// write timeout while this connection was the current or the newest one
+	writerStalledAt time.Duration
 }
 
 type note struct {
@@ -165,6 +169,7 @@ func (h *harnessB) when(cond func() bool, then func()) {
 }
 
 func (h *harnessB) poll() {
+	h.w.TrackRoles([][2]string{{"select@hsms/supervisor.go", "supervisor"}, {"net.Read", "recv"}})
 	for i := 0; i < len(h.whens); i++ {
 		wn := h.whens[i]
 		if !wn.done && wn.cond() {
@@ -178,6 +183,15 @@ func (h *harnessB) poll() {
 		for _, g := range h.w.S.Parked() {
 			if g.App && strings.HasPrefix(g.Site, "net.Write") && g.StallUntil == 0 {
 				h.w.StallG(g, h.stallPending)
+				if h.cur != nil && h.stallPending >= h.sc.WriteTO {
+					// the withheld sender may already be inside a write on the NEXT connection (it holds that
+					// connection's write lock and its write deadline keeps running): the write timeout is then a
+					// legitimate end of that connection
+					h.cur.writerStalledAt = h.w.Now()
+					if n := len(h.gens); n > 0 {
+						h.gens[n-1].writerStalledAt = h.w.Now()
+					}
+				}
 			}
 		}
 	}
@@ -200,6 +214,9 @@ func genScenarioB(t *core.Tape, faulty bool) scenarioB {
 		}
 		p.Churn = t.Weighted("scn", 4, 2, 1, 1)
 		p.Pipelined = t.Choose("scn", 2) == 1
+		if t.Choose("scn", 2) == 1 {
+			p.Tie = 1 + t.Choose("scn", 24)
+		}
 		p.EndsNS = t.Bias("scn", 1, 6)
 		p.End = t.Weighted("scn", 3, 3, 2, 2, 1)
 		if !faulty && p.End == endWedgeRST {
@@ -357,7 +374,7 @@ func (h *harnessB) describe() map[string]any {
 	sc := h.sc
 	var plans []string
 	for _, p := range sc.Plans {
-		plans = append(plans, fmt.Sprintf("sel=%s churn=%d pipe=%v endsNS=%v end=%s+%v stall=%v", selNames[p.Sel], p.Churn, p.Pipelined, p.EndsNS, endNames[p.End], p.EndDelay, p.StallAfter))
+		plans = append(plans, fmt.Sprintf("sel=%s churn=%d pipe=%v tie=%d endsNS=%v end=%s+%v stall=%v", selNames[p.Sel], p.Churn, p.Pipelined, p.Tie, p.EndsNS, endNames[p.End], p.EndDelay, p.StallAfter))
 	}
 
 	return map[string]any{"engine": "e2e", "active": sc.Active, "equip": sc.Equip, "T6": sc.T6.String(), "T7": sc.T7.String(), "backoff": sc.Backoff.String(),
@@ -544,6 +561,16 @@ func (h *harnessB) afterEstablished(g *gen) {
 		}
 	}
 	start := 3 * time.Millisecond
+	if len(frames) > 0 && p.Tie > 0 {
+		// a long preemption walked through the supervisor's (or the receive path's) next atomic steps
+		// while the churn frames are processed: a commit lands inside the other side's read-modify-write
+		role := []string{"supervisor", "recv"}[(p.Tie-1)%2]
+		skip := (p.Tie - 1) / 2
+		w.After(start-time.Millisecond, "arm-tie-hold", func() {
+			w.HoldNth = append(w.HoldNth, &core.NthHold{Prefix: "atomic", Skip: skip, D: 3 * time.Millisecond, Label: role,
+				Filter: func(g *simhook.G) bool { return w.Roles[g.ID] == role }})
+		})
+	}
 	if p.Pipelined {
 		w.After(start, "peer-churn", func() {
 			if !c.Alive() {
@@ -828,6 +855,8 @@ func (h *harnessB) observe() {
 			cause = "T6-select-tie"
 		case g.wedgedAt > 0 && now >= g.wedgedAt+h.sc.WriteTO:
 			cause = "write-timeout"
+		case g.writerStalledAt > 0 && now >= g.writerStalledAt+h.sc.WriteTO && g.c.L.ToPeer().BrokenOff >= 0:
+			cause = "write-timeout-of-a-withheld-sender"
 		}
 		if cause == "" {
 			w.Fail("SPURIOUS_DISCONNECT", "State() went %v->NotConnected at %v on generation %d, which is healthy: the peer neither closed, separated nor refused it, no Close was called, T7 is not due (NotSelected since %v, T7=%v)%s",
